@@ -505,8 +505,12 @@ static void check_files_kept(const struct dirsnap *before, const char *why)
     for (int i = 0; i < before->n; i++)
         if (!snap_has(&now, before->name[i])) {
             char sig[256];
-            snprintf(sig, sizeof sig, "C08/file-removed/%s/by=%s/after=%s/tp=%s", file_class(before->name[i]), why,
-                     faults_descr(), g_tp);
+            /* what a forked child's xcm_cleanup removes does not depend on the faults injected before the fork */
+            if (!strcmp(why, "cleanup-in-forked-child"))
+                snprintf(sig, sizeof sig, "C08/file-removed/%s/by=%s/tp=%s", file_class(before->name[i]), why, g_tp);
+            else
+                snprintf(sig, sizeof sig, "C08/file-removed/%s/by=%s/after=%s/tp=%s", file_class(before->name[i]), why,
+                         faults_descr(), g_tp);
             VIOL(sig, "%s of a live socket disappeared (%s); scenario %s, injected fault(s): %s",
                  file_class(before->name[i]), why, g_sc, faults_descr());
         }
